@@ -189,32 +189,35 @@ Definition sget (s : store) (k now a0 : Z) : store * list Z :=
 (* ---------- write path: the shard section, then the event ---------- *)
 Definition send (s : store) (it : witem) : store := set_queue s (queue s ++ [it]).
 
-(* setShardWithoutLock + toPolicy; dk = doorkeeper verdict for a new key (true: pass) *)
-Definition set_section (s : store) (k v cost expire h : Z) (dk nvm : bool) : store * bool :=
-  if sclosed s then (s, true) else
+(* setShardWithoutLock + toPolicy; dk = doorkeeper verdict for a new key (true: pass).
+   Returns the state, Set's return value, and whether the write took effect. *)
+Definition set_section (s : store) (k v cost expire h : Z) (dk nvm : bool) : store * bool * bool :=
+  if sclosed s then (s, true, false) else
   match map_get (smap s) k with
   | Some id =>
       match get_ent s id with
-      | None => (s, true)
+      | None => (s, true, false)
       | Some e =>
           let '(ex, resched) := updateExpire (sexpire e) expire in
           let s := upd_ent s id (fun e => e_weight (e_val (e_expire e ex) v) cost) in
-          (send s (mkW cUPDATE id (s64 (cost - sweight e)) resched false h), true)
+          (send s (mkW cUPDATE id (s64 (cost - sweight e)) resched false h), true, true)
       end
   | None =>
-      if negb dk then (s, false) else
+      if negb dk then (s, false, false) else
       let id := nextid s in
       let e := mkE id k v cost expire 0 h false false false in
       let s := set_nextid (set_smap (set_ents s (e :: ents s)) (map_set (smap s) k id)) (id + 1) in
-      (send s (mkW cNEW id cost false nvm h), true)
+      (send s (mkW cNEW id cost false nvm h), true, true)
   end.
 
-Definition sset (s : store) (k v cost ttl now h : Z) (dk : bool) : store * list Z :=
+(* Set: (state, return value, took effect) *)
+Definition sset3 (s : store) (k v cost ttl now h : Z) (dk : bool) : store * bool * bool :=
   let cost := if cost =? 0 then 1 else cost in
-  if s64 (scap s) <? cost then (s, [0]) else
-  let expire := setExpire now ttl in
-  let '(s', ok) := set_section s k v cost expire h dk false in
-  (s', [b2z ok]).
+  if s64 (scap s) <? cost then (s, false, false) else
+  set_section s k v cost (setExpire now ttl) h dk false.
+
+Definition sset (s : store) (k v cost ttl now h : Z) (dk : bool) : store * list Z :=
+  let '(s', ok, _) := sset3 s k v cost ttl now h dk in (s', [b2z ok]).
 
 Definition sdelete (s : store) (k h : Z) : store :=
   if sclosed s then s else
@@ -223,19 +226,21 @@ Definition sdelete (s : store) (k h : Z) : store :=
   | None => s
   end.
 
-(* loading Get: outcome = (err, value, cost, ttl) *)
-Definition sload (s : store) (k now a0 h : Z) (err : bool) (v cost ttl : Z) (dk : bool) : store * list Z :=
+(* loading Get: outcome = (err, value, cost, ttl); result code, value, and whether a load was stored *)
+Definition sload3 (s : store) (k now a0 h : Z) (err : bool) (v cost ttl : Z) (dk : bool) : store * list Z * bool :=
   match lookup_live s k now with
-  | Some e => (record_hit (set_counts s (hits s + 1) (misses s)) (sid e) (shash e) a0, [1; sval e])
+  | Some e => (record_hit (set_counts s (hits s + 1) (misses s)) (sid e) (shash e) a0, [1; sval e], false)
   | None =>
       let s := set_counts s (hits s) (misses s + 1) in
-      if sclosed s then (s, [3; 0]) else
-      if err then (s, [2; 0]) else
+      if sclosed s then (s, [3; 0], false) else
+      if err then (s, [2; 0], false) else
       let expire := setExpire now ttl in
       let cost := if cost =? 0 then 1 else cost in
-      if s64 (scap s) <? cost then (s, [0; v])
-      else (fst (set_section s k v cost expire h dk false), [0; v])
+      if s64 (scap s) <? cost then (s, [0; v], false)
+      else let '(s', _, st) := set_section s k v cost expire h dk false in (s', [0; v], st)
   end.
+Definition sload (s : store) (k now a0 h : Z) (err : bool) (v cost ttl : Z) (dk : bool) : store * list Z :=
+  let '(s', o, _) := sload3 s k now a0 h err v cost ttl dk in (s', o).
 
 (* ---------- views ---------- *)
 Fixpoint insert_sorted (kv : Z * Z) (l : list (Z * Z)) : list (Z * Z) :=
